@@ -216,6 +216,9 @@ def run_mv(rep, tier, seed, progs):
             w = p[0].split()
             rep.distinct(("mv", "nv%s" % w[1], "keys%s" % min(int(w[4]), 2), res.result))
             viol = []
+            if res.result.startswith("result slow"):
+                rep.cov["mv_inconclusive_slow"] = rep.cov.get("mv_inconclusive_slow", 0) + 1
+                continue
             if res.result.startswith("result hung"):
                 viol.append("nobody made progress for 3 s (%s)" % next((l for l in res.trace if l.startswith("stalled")), ""))
             if res.result.startswith("result crashed"):
